@@ -674,8 +674,16 @@ func ruleOwnBytes(p *Prog, r *Report) {
 			}
 		}
 		sort.Strings(gs)
+		pooled := ""
+		eachInstr(f, func(_ *ssa.BasicBlock, _ int, in ssa.Instruction) {
+			if rt, ok := in.(*ssa.Return); ok && len(rt.Results) > 0 && pooled == "" {
+				pooled = poolDerived(p, rt.Results[0], 0, map[ssa.Value]bool{})
+			}
+		})
 		if len(gs) > 0 {
 			r.Bad("OWNBYTES", key, at, "the returned slice can point into "+strings.Join(gs, ", ")+": a caller that appends to or edits the text changes what later calls marshal (and what UnmarshalText then decodes)")
+		} else if pooled != "" {
+			r.Bad("OWNBYTES", key, at, "the returned slice can point into "+pooled+": the next call that takes the object from the pool rewrites the text the caller is holding, so decoding it no longer gives the encoded value")
 		} else {
 			r.OK("OWNBYTES", key, at, "freshly allocated, converted from a string, or the caller's own buffer")
 		}
